@@ -222,6 +222,7 @@ type Query struct {
 	Facts  []*Term
 	Goal   *Term  // to be proved; nil means satisfiability (cover) check of Facts
 	Axioms []string // raw SMT-LIB assertions (quantified axioms of spec functions)
+	AbstractNL bool // replace every nonlinear product / power by a fresh integer (sound for validity)
 }
 
 func smtConst(k *big.Int) string {
@@ -240,6 +241,7 @@ type emitter struct {
 	ufs    map[string]bool
 	bvars  map[int]bool
 	needPow bool
+	absNL   bool
 }
 
 func (e *emitter) count(t *Term) {
@@ -313,6 +315,15 @@ func (e *emitter) raw(t *Term) string {
 	case OAdd:
 		return "(+ " + j + ")"
 	case OMul:
+		if e.absNL && len(t.args) >= 2 {
+			core := mkMulCore(bi(1), t.args)
+			n := fmt.Sprintf("nl!%d", core.id)
+			e.vars[n] = SInt
+			if t.k.Cmp(bi(1)) == 0 {
+				return n
+			}
+			return "(* " + smtConst(t.k) + " " + n + ")"
+		}
 		if t.k.Cmp(bi(1)) == 0 {
 			return "(* " + j + ")"
 		}
@@ -322,6 +333,11 @@ func (e *emitter) raw(t *Term) string {
 	case OMod:
 		return "(mod " + j + " " + smtConst(t.k) + ")"
 	case OPow:
+		if e.absNL {
+			n := fmt.Sprintf("nl!%d", t.id)
+			e.vars[n] = SInt
+			return n
+		}
 		e.needPow = true
 		return "(powi " + j + " " + smtConst(t.k) + ")"
 	case ODivT:
@@ -375,7 +391,7 @@ func smtName(n string) string {
 
 // Emit renders the query. wantModel adds get-model / get-value.
 func (q *Query) Emit(wantModel bool) string {
-	e := &emitter{refs: map[int]int{}, bound: map[int]bool{}, names: map[int]string{}, vars: map[string]Sort{}, ufs: map[string]bool{}, bvars: map[int]bool{}}
+	e := &emitter{refs: map[int]int{}, bound: map[int]bool{}, names: map[int]string{}, vars: map[string]Sort{}, ufs: map[string]bool{}, bvars: map[int]bool{}, absNL: q.AbstractNL}
 	all := append([]*Term(nil), q.Facts...)
 	if q.Goal != nil {
 		all = append(all, q.Goal)
